@@ -299,6 +299,12 @@ class RealBackend:
     def spawn(self, n):
         return self.R.spawn_sseq(n)
 
+    def get_state(self):
+        return self.R.getState()
+
+    def set_state(self, st):
+        self.R.setState(st)
+
 
 class ModelBackend:
     """Reference: an explicit stack of independent numpy generators."""
@@ -348,18 +354,43 @@ class ModelBackend:
     def spawn(self, n):
         return self.stack[-1][0].spawn(n)
 
+    def get_state(self):
+        import pickle
+        return pickle.dumps(self.stack)      # numpy's own notion of the state: generator positions AND spawn counters
 
-def interp(be, prog, trace, spawned, lvl=0, ctxs=None):
+    def set_state(self, st):
+        import pickle
+        self.stack = pickle.loads(st)
+
+
+def interp(be, prog, trace, spawned, lvl=0, ctxs=None, scopes=0, saved=None):
     """Run a program (list of statements) on a backend, appending to trace."""
     if ctxs is None:
         ctxs = []
+    if saved is None:
+        saved = []
     for st in prog:
         k = st[0]
         if k == "draw":
             trace.append(("draw", st[1], core.digest(be.draw(st[1], st[2])), be.depth()))
         elif k == "spawn":
-            spawned.extend(be.spawn(st[1]))
-            trace.append(("spawn", st[1], be.depth()))
+            new = be.spawn(st[1])
+            spawned.extend(new)
+            trace.append(("spawn", st[1], be.depth(), [[int(x) for x in ss.spawn_key] for ss in new]))
+        elif k in ("roundtrip", "save", "restore"):
+            # getState / setState replace the whole stack by equal copies: only generated outside of any open
+            # scope (a scope's exit compares generator identity), i.e. where the driver uses them as well
+            if scopes:
+                continue
+            if k == "roundtrip":
+                be.set_state(be.get_state())
+                trace.append(("roundtrip", be.depth()))
+            elif k == "save":
+                saved.append(be.get_state())
+                trace.append(("save", be.depth()))
+            elif saved:
+                be.set_state(saved[st[1] % len(saved)])
+                trace.append(("restore", be.depth()))
         elif k == "raise":
             trace.append(("raise", lvl, be.depth()))
             raise ProgramError()
@@ -375,7 +406,7 @@ def interp(be, prog, trace, spawned, lvl=0, ctxs=None):
                 with be.context(inp):
                     if be.depth() != d0 + 1:
                         trace.append(("BAD-depth-inside", be.depth()))
-                    interp(be, st[3], trace, spawned, lvl + 1, ctxs)
+                    interp(be, st[3], trace, spawned, lvl + 1, ctxs, scopes + 1, saved)
             finally:
                 trace.append(("exit", be.depth(), be.depth() == d0, be.token() is tok))
         elif k == "mkctx":
@@ -391,7 +422,7 @@ def interp(be, prog, trace, spawned, lvl=0, ctxs=None):
             c._verif_active = True
             try:
                 with c:
-                    interp(be, st[2], trace, spawned, lvl + 1, ctxs)
+                    interp(be, st[2], trace, spawned, lvl + 1, ctxs, scopes + 1, saved)
             finally:
                 c._verif_active = False
                 trace.append(("exit", be.depth(), be.depth() == d0, be.token() is tok))
@@ -399,13 +430,13 @@ def interp(be, prog, trace, spawned, lvl=0, ctxs=None):
             d0, tok = be.depth(), be.token()
             be.push(st[1])
             try:
-                interp(be, st[2], trace, spawned, lvl + 1, ctxs)
+                interp(be, st[2], trace, spawned, lvl + 1, ctxs, scopes + 1, saved)
             finally:
                 be.pop()
                 trace.append(("popped", be.depth() == d0, be.token() is tok))
         elif k == "try":
             try:
-                interp(be, st[1], trace, spawned, lvl + 1, ctxs)
+                interp(be, st[1], trace, spawned, lvl + 1, ctxs, scopes, saved)
                 trace.append(("try-completed", lvl, be.depth()))
             except ProgramError:
                 trace.append(("caught", lvl, be.depth()))
@@ -448,7 +479,9 @@ def strategies():
     spawn = st.tuples(st.just("spawn"), st.integers(1, 3))
     rais = st.tuples(st.just("raise"))
     mkctx = st.tuples(st.just("mkctx"), st.integers(0, 50))
-    leaf = st.one_of(draw, draw, spawn, rais, mkctx)
+    state = st.one_of(st.tuples(st.just("roundtrip")), st.tuples(st.just("save")),
+                      st.tuples(st.just("restore"), st.integers(0, 3)))
+    leaf = st.one_of(draw, draw, spawn, spawn, rais, mkctx, state)
 
     def ext(children):
         body = st.lists(children, min_size=0, max_size=4)
